@@ -8,9 +8,9 @@ SRC = "harness/c05_ra.cpp"
 def run(res, ctx):
     tier = ctx["tier"]
     if tier == "quick":
-        runner.run_harness(res, SRC, "asan", tier, deadline=170, timeout=600, shards=16)
+        runner.run_harness(res, SRC, "asan", tier, deadline=400, timeout=900, shards=16)
     else:
-        runner.run_harness(res, SRC, "asan", tier, deadline=1400, timeout=2400, shards=16)
+        runner.run_harness(res, SRC, "asan", tier, deadline=3000, timeout=4000, shards=16)
 
 
 def replay(res, path, ctx):
